@@ -1,78 +1,89 @@
 (* C12 — default parameter discovery finds exactly the leaves that matter.  Obligations only.
-   Graph facts hold for every finite directed graph of autograd nodes (cyclic or not). *)
+   Graph facts hold for every finite directed graph of autograd nodes (cyclic or not).
+   The model follows the code AFTER the repair of defect D4 (fix cc8b49f): tensors are identified by
+   their gradient EDGE (node, output number), so excluding one output of a multi-output function
+   does not exclude its siblings. *)
 From Coq Require Import List Bool Arith.
 From TJ Require Import Num Linalg Chunk Autojac Traverse.
 From TJ.proofs Require Import TraverseProofs C12Proofs.
 Import ListNotations.
 
-(* the walk returns exactly the AccumulateGrad nodes reachable from a non-excluded root along
-   paths avoiding the excluded nodes (soundness and completeness) *)
+(* the walk returns exactly the AccumulateGrad nodes reachable from a non-excluded root edge along
+   paths none of whose edges is excluded (soundness and completeness) *)
 Theorem C12_bfs_is_reachability : forall next acc fuel roots excl res,
   descendant_accumulate_grads next acc fuel roots excl = Some res ->
-  forall a, In a res <-> (acc a <> None /\ exists r, In r roots /\ apath next excl r a).
+  forall a, In a res <->
+    (acc a <> None /\ exists r k, In (r, k) roots /\ ~ In (r, k) excl /\ epath next excl r a).
 Proof. exact bfs_sound_complete. Qed.
 Print Assumptions C12_bfs_is_reachability.
 
 (* the out-of-fuel branch of the totalised model is unreachable on a finite graph *)
 Theorem C12_fuel_suffices : forall next acc nodes fuel roots excl,
-  NoDup nodes -> (forall r, In r roots -> In r nodes) ->
-  (forall n c, In n nodes -> In (Some c) (next n) -> In c nodes) ->
-  length nodes + length roots < fuel ->
+  NoDup nodes -> (forall r k, In (r, k) roots -> In r nodes) ->
+  (forall n c k, In n nodes -> In (Some (c, k)) (next n) -> In c nodes) ->
+  length nodes < fuel ->
   descendant_accumulate_grads next acc fuel roots excl <> None.
 Proof. exact bfs_fuel_suffices. Qed.
 Print Assumptions C12_fuel_suffices.
 
 Section C12.
-Context {T : Type} (N : Num T) (P : prog T) (A : list (list T) -> res (list T)).
+Context {T : Type} (N : Num T) (P : prog T) (E : egraph) (A : list (list T) -> res (list T)).
 
-(* the discovered set: the variables of the AccumulateGrad nodes reachable from the grad_fn of
-   some tensor along a path avoiding the grad_fn nodes of the excluded tensors *)
+(* the discovered set: the variables of the AccumulateGrad nodes reachable from the gradient edge of
+   some tensor along a path that uses none of the gradient edges of the excluded tensors *)
 Theorem C12_leaf_set : forall tensors excluded leaves,
-  get_leaf_tensors P tensors excluded = Ok leaves ->
+  get_leaf_tensors P E tensors excluded = Ok leaves ->
   (forall t, In t tensors -> p_gfn P t <> None) /\
   (forall t, In t excluded -> p_gfn P t <> None) /\
   NoDup leaves /\
   (forall t, In t leaves <->
      exists a o r, p_acc P a = Some t /\ In o tensors /\ p_gfn P o = Some r /\
-                   apath (p_next P) (gfn_nodes P excluded) r a).
-Proof. exact (get_leaf_tensors_ok P). Qed.
+                   ~ In (r, e_onr E o) (tensor_edges P E excluded) /\
+                   epath (e_next E) (tensor_edges P E excluded) r a).
+Proof. exact (get_leaf_tensors_ok P E). Qed.
+
+(* an edge is excluded iff it is the gradient edge of an excluded tensor: the siblings of an excluded
+   output of a multi-output node are NOT excluded (the content of the D4 repair) *)
+Theorem C12_excluded_edges : forall ts n k,
+  In (n, k) (tensor_edges P E ts) <-> exists t, In t ts /\ p_gfn P t = Some n /\ e_onr E t = k.
+Proof. exact (tensor_edges_In P E). Qed.
 
 Theorem C12_leaf_set_total : forall nodes tensors excluded,
-  graph_closed P nodes ->
+  graph_closed P E nodes ->
   (forall t, In t (tensors ++ excluded) -> p_gfn P t <> None) ->
-  exists leaves, get_leaf_tensors P tensors excluded = Ok leaves.
-Proof. exact (get_leaf_tensors_total P). Qed.
+  exists leaves, get_leaf_tensors P E tensors excluded = Ok leaves.
+Proof. exact (get_leaf_tensors_total P E). Qed.
 
 Theorem C12_no_grad_fn_rejected : forall tensors excluded,
   (exists t, In t (tensors ++ excluded) /\ p_gfn P t = None) ->
-  get_leaf_tensors P tensors excluded = Err ValueError.
-Proof. exact (get_leaf_tensors_rejects P). Qed.
+  get_leaf_tensors P E tensors excluded = Err ValueError.
+Proof. exact (get_leaf_tensors_rejects P E). Qed.
 
 (* backward without inputs behaves exactly as the explicit call on that set *)
 Theorem C12_backward_default : forall sigma tensors k retain s leaves,
-  get_leaf_tensors P tensors [] = Ok leaves ->
-  backward_default N P A sigma tensors k retain s
+  get_leaf_tensors P E tensors [] = Ok leaves ->
+  backward_default N P E A sigma tensors k retain s
   = backward_model N P A tensors (sigma leaves) k retain s.
-Proof. exact (backward_default_is_explicit N P A). Qed.
+Proof. exact (backward_default_is_explicit N P E A). Qed.
 
 (* mtl_backward without parameter lists behaves exactly as the explicit call: shared = leaves of
    the features; task i = leaves of loss i found without passing through the features *)
 Theorem C12_mtl_defaults : forall sigma losses features k retain s sh ts,
-  get_leaf_tensors P features [] = Ok sh ->
-  Forall2 (fun loss l => get_leaf_tensors P [loss] features = Ok l) losses ts ->
-  mtl_backward_default N P A sigma losses features None None k retain s
+  get_leaf_tensors P E features [] = Ok sh ->
+  Forall2 (fun loss l => get_leaf_tensors P E [loss] features = Ok l) losses ts ->
+  mtl_backward_default N P E A sigma losses features None None k retain s
   = mtl_backward_model N P A losses features (map sigma ts) (sigma sh) k retain s.
-Proof. exact (mtl_default_is_explicit N P A). Qed.
+Proof. exact (mtl_default_is_explicit N P E A). Qed.
 Theorem C12_mtl_default_shared : forall sigma losses features tasks k retain s sh,
-  get_leaf_tensors P features [] = Ok sh ->
-  mtl_backward_default N P A sigma losses features (Some tasks) None k retain s
+  get_leaf_tensors P E features [] = Ok sh ->
+  mtl_backward_default N P E A sigma losses features (Some tasks) None k retain s
   = mtl_backward_model N P A losses features tasks (sigma sh) k retain s.
-Proof. exact (mtl_default_shared_only N P A). Qed.
+Proof. exact (mtl_default_shared_only N P E A). Qed.
 Theorem C12_mtl_default_tasks : forall sigma losses features shared k retain s ts,
-  Forall2 (fun loss l => get_leaf_tensors P [loss] features = Ok l) losses ts ->
-  mtl_backward_default N P A sigma losses features None (Some shared) k retain s
+  Forall2 (fun loss l => get_leaf_tensors P E [loss] features = Ok l) losses ts ->
+  mtl_backward_default N P E A sigma losses features None (Some shared) k retain s
   = mtl_backward_model N P A losses features (map sigma ts) shared k retain s.
-Proof. exact (mtl_default_tasks_only N P A). Qed.
+Proof. exact (mtl_default_tasks_only N P E A). Qed.
 
 (* overlapping sets: rejected, nothing changes *)
 Theorem C12_mtl_overlap_rejected : forall losses features tasks shared k retain s q ps,
@@ -81,6 +92,7 @@ Theorem C12_mtl_overlap_rejected : forall losses features tasks shared k retain 
 Proof. exact (mtl_overlap_rejected N P A). Qed.
 End C12.
 Print Assumptions C12_leaf_set.
+Print Assumptions C12_excluded_edges.
 Print Assumptions C12_leaf_set_total.
 Print Assumptions C12_no_grad_fn_rejected.
 Print Assumptions C12_backward_default.
@@ -89,9 +101,18 @@ Print Assumptions C12_mtl_default_shared.
 Print Assumptions C12_mtl_default_tasks.
 Print Assumptions C12_mtl_overlap_rejected.
 
-(* non-vacuity: a diamond  y = f(a(x), b(x)), the walk from y finds the AccumulateGrad of x once *)
+(* non-vacuity: a diamond  y = f(a(x), b(x)): the walk from y finds the AccumulateGrad of x once *)
 Example C12_diamond :
   descendant_accumulate_grads
-    (fun n => match n with 0 => [Some 1; Some 2] | 1 => [Some 3] | 2 => [Some 3; None] | _ => [] end)
-    (fun n => match n with 3 => Some 7 | _ => None end) 10 [0] [] = Some [3].
+    (fun n => match n with 0 => [Some (1, 0); Some (2, 0)] | 1 => [Some (3, 0)]
+                         | 2 => [Some (3, 0); None] | _ => [] end)
+    (fun n => match n with 3 => Some 7 | _ => None end) 10 [(0, 0)] [] = Some [3].
+Proof. vm_compute. reflexivity. Qed.
+(* the D4 witness in the model: node 1 is a two-output function; output 0 is the feature (excluded),
+   the loss (node 0) uses output 1: the leaf below node 1 IS found.  With node-level exclusion (the
+   code before the fix) it was not. *)
+Example C12_sibling_output_not_excluded :
+  descendant_accumulate_grads
+    (fun n => match n with 0 => [Some (1, 1)] | 1 => [Some (2, 0)] | _ => [] end)
+    (fun n => match n with 2 => Some 9 | _ => None end) 10 [(0, 0)] [(1, 0)] = Some [2].
 Proof. vm_compute. reflexivity. Qed.
